@@ -14,7 +14,7 @@ from . import bridge, seams, world
 from .ref import armor as rarmor, enc as renc, keys as rkeys, sigs as rsigs, tkey as rtkey
 from .ref.wire import WireError, split_packets
 
-HASHNAMES = {1: 'MD5', 2: 'SHA1', 8: 'SHA256', 9: 'SHA384', 10: 'SHA512', 11: 'SHA224'}
+HASHNAMES = {1: 'MD5', 2: 'SHA1', 3: 'RIPEMD160', 8: 'SHA256', 9: 'SHA384', 10: 'SHA512', 11: 'SHA224'}
 SIGN_KINDS = ('doc', 'text', 'timestamp', 'msg', 'cleartext', 'cert_self', 'cert_other', 'uattr_cert', 'direct_other',
               'direct_self', 'bind', 'revoke_key', 'revoke_subkey', 'revoke_uid', 'revoker', 'attest')
 
